@@ -26,7 +26,7 @@ RULE = ('cases: C01 strings, multi-level strings and ambiguous fragment sets (in
         'long-lived resolver by one step, sample with a MoleculeSampler built on a shared library); after every '
         'step each result equals the memoised reference of its input and every library equals its dump at '
         'creation. Processes: the same batch of inputs is resolved in fresh interpreters under PYTHONHASHSEED '
-        '0,1,2,random and the dumps are compared byte for byte. non-trivial = >=2 fragments or >=2 uses of one '
+        '0,1,2 and 1000+VERIF_SEED (more in the thorough tier) and the dumps are compared byte for byte. non-trivial = >=2 fragments or >=2 uses of one '
         'library; distinct = string')
 ASSUMPTIONS = ['hash seeds are sampled (4 quick / 8 thorough), not enumerated']
 
@@ -193,9 +193,9 @@ def extra(tier, seed, col):
     sink = _Sink()
     hypothesis_run(me, tier, seed * 1000 + 991, 150 if tier == 'quick' else 1500, sink)
     cases = sink.cases
-    seeds = ['0', '1', '2', 'random'] if tier == 'quick' else ['0', '1', '2', '3', '17', '4242', 'random', 'random']
+    seeds = ['0', '1', '2', str(1000 + seed)] if tier == 'quick' else ['0', '1', '2', '3', '17', '4242', str(1000 + seed), str(77000 + seed)]
     outs = hash_seed_run([dict(input=c['input'], aa=c['last_all_atom'], legacy=c['legacy']) for c in cases],
-                         list(dict.fromkeys(seeds)) if tier == 'quick' else seeds[:7] + ['random'])
+                         list(dict.fromkeys(seeds)))
     keys = list(outs)
     base = outs[keys[0]]
     compared = 0
